@@ -39,6 +39,15 @@ Definition simple_update (H : name -> Z) (n : name) (orig r : Z) : res :=
   else Val (orig + r * (1000037 + H n)).
 
 (* ---------- StreamSeedUpdater.update_seed ---------- *)
+(* r >= 0; "if replication_nr >= len(seeds): raise ValueError", else seeds[r]
+   (the length is tested first: r can be astronomically large) *)
+Definition seed_at (seeds : list Z) (r : Z) : res :=
+  if Z.of_nat (length seeds) <=? r then Raise EValueError
+  else match nth_error seeds (Z.to_nat r) with
+       | Some s => Val s
+       | None => Raise EValueError
+       end.
+
 Fixpoint lookup (tbl : list (name * list Z)) (n : name) : option (list Z) :=
   match tbl with
   | [] => None
@@ -50,11 +59,7 @@ Definition table_update (tbl : list (name * list Z)) (fb : name -> Z -> Z -> res
   if r <? 0 then Raise EValueError
   else match lookup tbl n with
        | None => fb n orig r
-       | Some seeds =>
-           match nth_error seeds (Z.to_nat r) with
-           | Some s => Val s
-           | None => Raise EValueError
-           end
+       | Some seeds => seed_at seeds r
        end.
 
 (* pinned tree: self._stream_seeds[stream_id] is evaluated first *)
@@ -63,11 +68,7 @@ Definition table_update_pinned (tbl : list (name * list Z)) (fb : name -> Z -> Z
   if r <? 0 then Raise EValueError
   else match lookup tbl n with
        | None => Raise EKeyError
-       | Some seeds =>
-           match nth_error seeds (Z.to_nat r) with
-           | Some s => Val s
-           | None => Raise EValueError
-           end
+       | Some seeds => seed_at seeds r
        end.
 
 (* ---------- StreamUpdater.update_seeds ---------- *)
